@@ -48,7 +48,7 @@ from mashumaro.mixins.yaml import DataClassYAMLMixin
 from mashumaro.mixins.toml import DataClassTOMLMixin
 from mashumaro.config import (BaseConfig, ADD_DIALECT_SUPPORT, TO_DICT_ADD_OMIT_NONE_FLAG, TO_DICT_ADD_BY_ALIAS_FLAG,
                               ADD_SERIALIZATION_CONTEXT)
-import orjson, ast as _ast
+import orjson, datetime, ast as _ast
 import c14aux_a, c14aux_b
 from mashumaro.dialect import Dialect
 T = TypeVar("T")
@@ -134,8 +134,10 @@ def gen_family(rng, max_classes=5, focus=None) -> dict:
     for i in range(n):
         kind = "mixin" if (i == n - 1 or rng.random() < 0.7) else "plain"
         generic = 0
-        if i < n - 1 and (rng.random() < 0.25 or (focus == "spec" and i == 0)):
+        if i < n - 1 and (rng.random() < 0.25 or (focus == "spec" and i == 0 and rng.random() < 0.6)):
             generic = rng.choice([1, 2, 2])
+        if focus == "spec" and i == 0 and not generic:
+            kind = "plain"          # a plain dataclass shared by several owners
         if focus == "spec" and i > 0:
             kind, generic = "mixin", 0
         mix = []
@@ -156,7 +158,7 @@ def gen_family(rng, max_classes=5, focus=None) -> dict:
             if cands:
                 parent = rng.choice(cands)
         fields = []
-        nf = rng.randint(1, 3)
+        nf = rng.randint(2, 3) if (focus == "spec" and i == 0) else rng.randint(1, 3)
         for k in range(nf):
             r = rng.random()
             if (r < 0.45 and n > 1) or (focus == "spec" and i > 0 and k == 0):
@@ -172,15 +174,21 @@ def gen_family(rng, max_classes=5, focus=None) -> dict:
                     j = rng.randrange(0, n)
                 wrap = rng.choice(["plain", "opt", "list", "dict", "opt", "list"]) if j < i else rng.choice(["opt", "list", "dict"])
                 fields.append([f"f{i}_{k}", ["dc", j, wrap, None]])
+            elif focus == "spec" and i == 0 and k < 2:
+                fields.append([f"f{i}_{k}", [["int", "optint"][k]]])     # what Config.dialect D2 / D1 of an owner would change
             else:
-                fields.append([f"f{i}_{k}", [rng.choice(["int", "str", "optint", "listint", "int"])]])
+                fields.append([f"f{i}_{k}", [rng.choice(["int", "str", "optint", "listint", "int", "bytes", "date"])]])
         for q in range(generic):
             fields.append(["tu"[q], ["TV", q]])
+        if kind == "plain" and not generic and rng.random() < 0.2:
+            # an annotation that can never be resolved at run time (e.g. a TYPE_CHECKING-only import)
+            fields.append([f"g{i}", ["ghost"]])
         hot = 0.6 if focus == "kwargs" else 0.3
         onf = kind == "mixin" and rng.random() < hot
         baf = kind == "mixin" and parent is None and rng.random() < hot * 0.8
         ctx = kind == "mixin" and parent is None and rng.random() < hot * 0.8
-        classes.append({"name": f"K{i}", "kind": kind, "mixins": mix, "dsup": dsup, "onf": onf, "baf": baf, "ctx": ctx,
+        cdial = rng.choice(["D1", "D2"]) if kind == "mixin" and rng.random() < (0.7 if focus == "spec" else 0.25) else None
+        classes.append({"name": f"K{i}", "kind": kind, "mixins": mix, "dsup": dsup, "onf": onf, "baf": baf, "ctx": ctx, "cdial": cdial,
                         "generic": generic, "parent": parent, "fields": fields})
     # forward references j>i: only towards non-generic classes, wrapped (opt/list/dict); fix type args of
     # generic targets now that all classes are known
@@ -266,6 +274,12 @@ def type_src(fam, t) -> str:
         return "List[int]"
     if t[0] == "TV":
         return TVARS[t[1]]
+    if t[0] == "bytes":
+        return "bytes"
+    if t[0] == "date":
+        return "datetime.date"
+    if t[0] == "ghost":
+        return "Optional[Ghost]"
     _, j, wrap, targ = t
     base = fam["classes"][j]["name"]
     if targ:
@@ -274,6 +288,8 @@ def type_src(fam, t) -> str:
 
 
 def default_src(t) -> str | None:
+    if t[0] == "ghost":
+        return "None"
     if t[0] == "dc":
         return {"plain": None, "opt": "None", "list": "field(default_factory=list)", "dict": "field(default_factory=dict)"}[t[2]]
     return None
@@ -313,6 +329,8 @@ def render(fam: dict, order: list[int], lazy: list[bool]) -> str:
             out.append(f"        code_generation_options = [{', '.join(opts)}]")
             if c.get("baf"):
                 out.append("        allow_deserialization_not_by_alias = True")
+            if c.get("cdial"):
+                out.append(f"        dialect = {c['cdial']}")
             if c.get("ctx"):
                 out.append("    def __post_serialize__(self, d, context=None):")
                 out.append("        if context is not None:")
@@ -367,6 +385,13 @@ def gen_value(fam, i, rng, depth=0, targ=None):
             v = repr([rng.randint(0, 9) for _ in range(rng.randint(0, 2))])
         elif t[0] == "TV":
             v = targ_value_src(targ[t[1]] if targ else None, rng)
+        elif t[0] == "bytes":
+            v = repr(rng.choice([b"", b"ab", b"\x00\xff"]))
+        elif t[0] == "date":
+            v = "datetime.date(2020, 1, %d)" % rng.randint(1, 28)
+        elif t[0] == "ghost":
+            k += 1          # a dataclass-valued position of the model (never populated)
+            continue
         else:
             k += 1
             _, j, wrap, ta = t
